@@ -49,6 +49,13 @@ class staterror_builder:
             else [0.0] * self.config.channel_nbins[channel]
         )
         moddata = self.collect(thismod, nom)
+        if len(nom) != len(moddata['uncrt']):
+            # check per channel: a mismatch must not be compensated by another channel
+            raise InvalidModifier(
+                f"The '{sample}' sample staterror modifier '{thismod['name']}' has data shape inconsistent with the sample in the '{channel}' channel.\n"
+                + f"{sample} has 'data' of length {len(nom)} but {thismod['name']}"
+                + f" has 'data' of length {len(moddata['uncrt'])}."
+            )
         self.builder_data[key][sample]['data']['mask'].append(moddata['mask'])
         self.builder_data[key][sample]['data']['uncrt'].append(moddata['uncrt'])
         self.builder_data[key][sample]['data']['nom_data'].append(moddata['nom_data'])
